@@ -139,7 +139,17 @@ func (c *ctxT) checkCase(word []int) (string, string) {
 				return desc, fmt.Sprintf("tx %d (%s) ERROR: payer balance %s -> %s, recorded fee %s", i, o.Gen, bal(before, payer), bal(after, payer), o.Fee)
 			}
 			if pa != nil && pb != nil && (pa.Root != pb.Root || pa.Code != pb.Code) {
-				return desc, fmt.Sprintf("tx %d (%s) ERROR: storage/code of the payer changed", i, o.Gen)
+				m := fmt.Sprintf("tx %d (%s) ERROR: storage/code of the payer changed", i, o.Gen)
+				// fee delegation: the payer is the called contract; same mechanism as F22
+				if pa.Code == pb.Code && bytes.Equal(payer, o.Tx.GetBody().GetRecipient()) {
+					for j := 0; j < i; j++ {
+						pj := full.Out[j]
+						if pj.Status != "" && pj.Status != "ERROR" && bytes.Equal(pj.Tx.GetBody().GetRecipient(), payer) {
+							return desc, "F22|" + m + " (only its storage: writes of the failed call were kept)"
+						}
+					}
+				}
+				return desc, m
 			}
 			// sender: nonce advances to the tx nonce; balance unchanged unless it is the payer
 			if after.NonceOf(sender) != o.Tx.GetBody().GetNonce() {
